@@ -175,13 +175,8 @@ def run_property(pid, tier="quick", replay=None, repo_root=None, write_evidence=
     # spelling-based rules cannot tell a refactoring from a defect once a function has been rewritten: their VIOLATIONs are kept only
     # while every changed function is a first-order edit of its reference version (a deletion, or one replaced statement)
     sem_rules = set(getattr(mod, "SEMANTIC_RULES", ())) | {"STATE", "R-SLICE0"}
-    import re as _re
-    # a finding is 'absence-type' when it says that an expected construct was not found / does not have the expected spelling; a finding that
-    # names a specific bad construct it did find (a recognised deviation) is positive evidence and is not gated
-    _ABS = _re.compile(r"(^|\W)(no |not found|never |missing|is not |are not |does not |do not |did not |without |lacks |lack |expected )")
-    for r in verdicts:
-        if r.status == VIOLATION and not (r.semantic or r.rule in sem_rules) and not _ABS.search(r.detail):
-            r.semantic = True
+    # every VIOLATION that is neither derived by an engine (semantic=True / SEMANTIC_RULES) nor an explicitly recognised deviation
+    # (core.named) comes from comparing spellings and is subject to the rewrite gate
     gate_note = None
     if any(r.status == VIOLATION and not (r.semantic or r.rule in sem_rules) for r in verdicts) and not os.environ.get("TMVERIF_NO_GATE"):
         try:
